@@ -31,19 +31,26 @@ var effectFreePrefixes = []string{
 	"(*time.Ticker).", "time.NewTicker", "time.After", "time.Sleep",
 	"(*container/list.List).", "container/list.New", "(*container/list.Element).",
 	"dynamic:context.CancelFunc",
+	"(k8s.io/client-go/tools/leaderelection/resourcelock.Interface).",
 }
 
 const tagPlainErr = 1000001
 
 func returnsNonNilError(name string) bool {
 	switch name {
-	case "errors.New", "fmt.Errorf", "github.com/pkg/errors.New", "github.com/pkg/errors.Errorf":
+	case "errors.New", "fmt.Errorf", "github.com/pkg/errors.New", "github.com/pkg/errors.Errorf", "google.golang.org/grpc/status.Errorf":
 		return true
 	}
 	return false
 }
 
 func isEffectFree(name string) bool {
+	if strings.Contains(name, "_WatchServer).") || strings.Contains(name, "StreamServer).") {
+		return true // gRPC server-side stream handles: Send / Recv / Context touch no tracked state
+	}
+	if (strings.HasSuffix(name, ").Size") || strings.HasSuffix(name, ").String")) && (strings.Contains(name, "v2rpc") || strings.Contains(name, "etcdserverpb") || strings.Contains(name, "mvccpb")) {
+		return true // generated protobuf size / string methods
+	}
 	for _, p := range effectFreePrefixes {
 		if strings.HasPrefix(name, p) {
 			return true
